@@ -111,9 +111,16 @@ pub enum Prog {
     InFlightJoinSecondJoin,
     /// keep a plain address; the owner is dropped by an unwinding (contained) panic; call
     UnwindDropOwnerCall,
+    /// a join future is created (not polled), then the owner is dropped; stop through a plain
+    /// address; the join future still yields the actor
+    JoinStartDropOwnerStopAwait,
+    /// consume_sync (stop + the join future, the owner is gone when it returns), then await it
+    ConsumeSyncAwait,
+    /// a join future is created, the owner detached; stop; the join future still yields the actor
+    JoinStartDetachStopAwait,
 }
 
-pub const PROGS: [Prog; 13] = [
+pub const PROGS: [Prog; 16] = [
     Prog::Call,
     Prog::DropOthersCall,
     Prog::DetachCall,
@@ -127,6 +134,9 @@ pub const PROGS: [Prog; 13] = [
     Prog::InFlightJoinDetachCall,
     Prog::InFlightJoinSecondJoin,
     Prog::UnwindDropOwnerCall,
+    Prog::JoinStartDropOwnerStopAwait,
+    Prog::ConsumeSyncAwait,
+    Prog::JoinStartDetachStopAwait,
 ];
 
 enum Spawned {
@@ -252,6 +262,27 @@ fn ops_for(prog: Prog, owning: bool) -> Vec<Op> {
                 vec![Op::Call(t, 1), Op::Clone(H::Addr(0)), Op::DropUnwinding(H::Addr(0)), Op::Yield, Op::Call(H::Addr(1), 2)]
             }
         }
+        Prog::JoinStartDropOwnerStopAwait => {
+            if owning {
+                vec![Op::Call(t, 1), Op::JoinStart(H::Own(0)), Op::ToAddr(H::Own(0)), Op::Drop(H::Own(0)), Op::Yield, Op::Call(H::Addr(0), 2), Op::Stop(H::Addr(0)), Op::JoinAwait(0)]
+            } else {
+                vec![Op::Call(t, 1), Op::Yield, Op::Call(t, 2)]
+            }
+        }
+        Prog::ConsumeSyncAwait => {
+            if owning {
+                vec![Op::Call(t, 1), Op::ConsumeSync(H::Own(0)), Op::JoinAwait(0)]
+            } else {
+                vec![Op::Call(t, 1), Op::Yield, Op::Call(t, 2)]
+            }
+        }
+        Prog::JoinStartDetachStopAwait => {
+            if owning {
+                vec![Op::Call(t, 1), Op::JoinStart(H::Own(0)), Op::Detach(H::Own(0)), Op::Yield, Op::Call(H::Addr(0), 2), Op::Stop(H::Addr(0)), Op::JoinAwait(0)]
+            } else {
+                vec![Op::Call(t, 1), Op::Yield, Op::Call(t, 2)]
+            }
+        }
         Prog::PanicAwaitJoin => {
             if owning {
                 vec![Op::Call(t, 1), Op::ToAddr(H::Own(0)), Op::Send(H::Own(0), 66), Op::Await(H::Addr(0)), Op::Join(H::Own(0))]
@@ -360,6 +391,7 @@ impl Scene for S {
                 Prog::Ticks => o.i == 1,
                 Prog::CallDropAll | Prog::PanicAwaitJoin => o.i == 0,
                 Prog::AbandonJoinDetachCall | Prog::AbandonJoinDropOwnerCall | Prog::PendingJoinDetachCall | Prog::InFlightJoinDetachCall | Prog::UnwindDropOwnerCall => true,
+                Prog::JoinStartDropOwnerStopAwait | Prog::ConsumeSyncAwait | Prog::JoinStartDetachStopAwait => true,
                 Prog::InFlightJoinSecondJoin => o.i == 0,
             };
             if o.c == 0 && call_op && is_call {
